@@ -27,6 +27,7 @@ Require Import Verif.Model.JsonEsc Verif.Model.Attrs Verif.Model.Encode Verif.Mo
 Require Import Verif.Proofs.EscP Verif.Proofs.SortP Verif.Proofs.JsonStrP Verif.Proofs.JsonP.
 Require Import Verif.Model.GoSem.
 Require Verif.Gen.Escapes Verif.Gen.Tables Verif.Proofs.GenEscP.
+Require Verif.Gen.Layout Verif.Model.LayoutRef Verif.Proofs.GenLayoutP.
 
 (* ---- the source against the model: PrintCtx.appendEscapedJSONString as it is in /repo now
    (translated on every run, Gen/Escapes.v: the index loop with its lazily copied run val[start:i],
@@ -113,6 +114,19 @@ Proof. exact keys_order. Qed.
 Print Assumptions C04_keys_order.
 
 (* ---- non-vacuity: a concrete hostile record inside the domain ---- *)
+(* TIE TO THE SOURCE: THE FRAMING.  PrintCtx.Begin and End, translated from the source on every run
+   (Gen/Layout.v): in JSON mode Begin appends an opening brace and End a closing brace, in the other modes
+   neither appends a brace; End(true) appends, after that, exactly one line feed, End(false) none; nothing
+   else is written (the buffer before is a prefix). *)
+Theorem C04_gen_pc_begin : forall jsonMode buf,
+  Layout.pc_begin jsonMode buf = Some (buf ++ (if jsonMode then [x7b] else [])).
+Proof. exact GenLayoutP.gen_pc_begin. Qed.
+Print Assumptions C04_gen_pc_begin.
+Theorem C04_gen_pc_end : forall jsonMode buf newline,
+  Layout.pc_end jsonMode buf newline = Some (buf ++ (if jsonMode then [x7d] else []) ++ (if newline then [x0a] else [])).
+Proof. exact GenLayoutP.gen_pc_end. Qed.
+Print Assumptions C04_gen_pc_end.
+
 Definition ex_reg : registry :=
   {| r_all := [4]; r_l2s := [(4, [x69; x6e; x66; x6f])]; r_s2l := []; r_tags := []; r_as := []; r_errdev := []; r_colors := [] |}.
 Definition ex_cfg : ecfg :=
